@@ -161,6 +161,7 @@ class Ctx:
         self.findings = [f for f in load_findings() if f["property"] == pid]
         self.replay_mode = False
         self.no_evidence = False
+        self.accept_unreproduced: set[str] = set()
 
     # ---- coverage ------------------------------------------------------------------
     def tick(self, n: int = 1):
@@ -312,6 +313,10 @@ class Ctx:
 
     def _file(self, clause, case, sig, msg):
         ok, msg2 = self._confirm(clause, case, sig)
+        if not ok and any(sig.startswith(p) for p in self.accept_unreproduced):
+            # purity clauses: a bitwise self-comparison that fails once and passes on re-execution is itself
+            # evidence of hidden (Python-side) state
+            ok, msg2 = True, msg + " [did not recur when the single case was re-executed in another process state]"
         if not ok:
             raise HarnessError(
                 f"failure {sig} of clause {clause} did not reproduce on re-execution of the single case "
@@ -407,6 +412,26 @@ class Ctx:
             print(f"HARNESS-ERROR property={self.pid} vacuity guards never hit: {missing}")
             return 2
         return 0
+
+
+@__import__("contextlib").contextmanager
+def quiet_fds():
+    """Temporarily send the process's stdout/stderr file descriptors to /dev/null (rich progress bars etc.)."""
+    sys.stdout.flush()
+    sys.stderr.flush()
+    saved = os.dup(1), os.dup(2)
+    dn = os.open(os.devnull, os.O_WRONLY)
+    try:
+        os.dup2(dn, 1)
+        os.dup2(dn, 2)
+        yield
+    finally:
+        sys.stdout.flush()
+        sys.stderr.flush()
+        os.dup2(saved[0], 1)
+        os.dup2(saved[1], 2)
+        for fd in (dn,) + saved:
+            os.close(fd)
 
 
 def _winit(threads):
